@@ -131,7 +131,9 @@ class MAUPITIConv2d(nn.Conv2d, MAUPITIModule):
         if self.padding == 'valid':
             self.pad = nn.ConstantPad2d(0, 0)
         else:
-            self.pad = nn.ConstantPad2d(self.padding[0], self.in_offset)
+            # (left, right, top, bottom): the width is padded by padding[1], the height by padding[0]
+            self.pad = nn.ConstantPad2d(
+                (self.padding[1], self.padding[1], self.padding[0], self.padding[0]), self.in_offset)
 
     def forward(self, input: torch.Tensor) -> torch.Tensor:
         """The forward function of integer conv2d layer.
